@@ -49,7 +49,7 @@ Deliver, for each of the two changes, a directory {out}/{id}/<short-name>/ conta
   - patch.diff  (output of `git -C {wt} diff` for ONLY that change; must apply with `git apply` to a clean checkout of the same commit)
   - demo.py     (the demonstration)
   - meta.json   {{"property": "{id}", "title": "...", "files": [...], "what_it_breaks": "...", "needs_to_manifest": "...(the specific input/schedule/fault/sequence)...", "verified": {{"suite_passes_with_change": true/false, "demo_fails_with_change": true/false, "demo_passes_without_change": true/false}}, "commands_run": [...]}}
-After saving each patch.diff, restore the worktree to clean (`git -C {wt} checkout -- .`) before starting the next change, and leave the worktree clean at the end. Do not commit anything. Actually run the suite and the demo both ways and report truthfully; if you could not make one of the two work, say so plainly rather than delivering an unverified one.
+After saving each patch.diff, restore the worktree to clean (`git -C {wt} checkout -- .`) before starting the next change, and leave the worktree clean at the end. Do not commit anything and do not use `git stash` (the stash is shared between all worktrees of this repository; use `git diff > file; git checkout -- .; git apply file` instead). Actually run the suite and the demo both ways and report truthfully; if you could not make one of the two work, say so plainly rather than delivering an unverified one.
 {fsnote}
 Your final reply should be a short report: for each change, the name, one paragraph on what it does and what it needs to manifest, and the verification results.
 """
